@@ -1,5 +1,6 @@
 import CobyqaVerif.Alg.CauchyDir
 import CobyqaVerif.Props.C16Cauchy
+import CobyqaVerif.Props.C15Improve
 import Mathlib.Tactic.Linarith
 import Mathlib.Tactic.Positivity
 
@@ -29,6 +30,17 @@ variable {K : Type} [Field K] [LinearOrder K] [IsStrictOrderedRing K] {n : ℕ}
 
 /-- `np.sqrt` is positive on positive numbers -/
 def SqrtPos (D : DParams K) : Prop := ∀ x, 0 < x → 0 < D.sqrtO x
+
+/-- every checked proposal (`Tcg.checkedSqrtUp`) is positive on positive numbers -/
+theorem checkedSqrt_pos (propose : K → K) (tiny : K) : SqrtPos { sqrtO := checkedSqrtUp propose, tiny := tiny } := by
+  intro x hx
+  obtain ⟨h0, h2⟩ := checkedSqrtUp_spec propose x hx.le
+  rcases h0.eq_or_lt with h | h
+  · exfalso
+    rw [← h] at h2
+    have : x ≤ 0 := by simpa using h2
+    linarith
+  · exact h
 
 /-- a component moves down only where the gradient is negative and the lower bound leaves room, up only where the
 gradient is positive and the upper bound leaves room -/
@@ -416,14 +428,15 @@ theorem cauchyFull_admissible (P : GProb n K) (hW : GWF P) (D : DParams K) (fuel
   have nn : ∀ c : Fin n → K, 0 ≤ c ⬝ᵥ c := fun c => Finset.sum_nonneg fun j _ => mul_self_nonneg _
   exact cauchyGeometry_admissible P hW _ _ _ _ hd (hE _ (nn _)) (hE _ (nn _))
 
-/-- **C16, strict clause, for `cauchy_geometry` as a whole.**  If a variable can move inside the box in the direction
-that increases `|q|` — uphill when `q(0) ≥ 0`, downhill when `q(0) ≤ 0` — the magnitude of the quadratic at the step
-returned strictly exceeds its magnitude at the origin (`TINY = 0`, positive radius, `np.sqrt` positive on positive
-numbers; any Hessian, any number of passes of the rescaling loop beyond the first). -/
+/-- **C16, strict clause, for `cauchy_geometry` as a whole.**  If a variable can move inside the box in a direction that
+increases `|q|` — uphill when `q(0) > 0`, downhill when `q(0) < 0`, either when `q(0) = 0` — the magnitude of the
+quadratic at the step returned strictly exceeds its magnitude at the origin (`TINY = 0`, positive radius, `np.sqrt`
+positive on positive numbers; any Hessian, any number of passes of the rescaling loop beyond the first). -/
 theorem cauchyFull_strict (P : GProb n K) (hW : GWF P) (D : DParams K) (hT : D.tiny = 0) (hS : SqrtPos D)
     (hd : 0 < P.delta) (fuel : ℕ)
-    (hup : 0 ≤ P.const → ∃ i, actL P i = true ∨ actU P i = true)
-    (hdown : P.const ≤ 0 → ∃ i, actL P.neg i = true ∨ actU P.neg i = true) :
+    (hup : 0 < P.const → ∃ i, actL P i = true ∨ actU P i = true)
+    (hdown : P.const < 0 → ∃ i, actL P.neg i = true ∨ actU P.neg i = true)
+    (hzero : P.const = 0 → (∃ i, actL P i = true ∨ actU P i = true) ∨ (∃ i, actL P.neg i = true ∨ actU P.neg i = true)) :
     |P.const| < |P.q (cauchyFull P D (fuel + 1))| := by
   have v1 := stage_value P hW (direction P D (fuel + 1)) (D.sqrtO (direction P D (fuel + 1) ⬝ᵥ direction P D (fuel + 1)))
   have v2 := stage_value P.neg (neg_wf hW) (direction P.neg D (fuel + 1)) (D.sqrtO (direction P.neg D (fuel + 1) ⬝ᵥ direction P.neg D (fuel + 1)))
@@ -437,33 +450,43 @@ theorem cauchyFull_strict (P : GProb n K) (hW : GWF P) (D : DParams K) (hT : D.t
   simp only
   set r1 := stage P (direction P D (fuel + 1)) (D.sqrtO (direction P D (fuel + 1) ⬝ᵥ direction P D (fuel + 1))) with hr1
   set r2 := stage P.neg (direction P.neg D (fuel + 1)) (D.sqrtO (direction P.neg D (fuel + 1) ⬝ᵥ direction P.neg D (fuel + 1))) with hr2
-  -- each half is at least |const| in magnitude; the relevant one strictly
-  have a1 : |P.const| ≤ |r1.2| ∨ P.const < 0 := by
-    rcases le_or_gt 0 P.const with hc | hc
-    · left; rw [abs_of_nonneg hc, abs_of_nonneg (le_trans hc n1)]; exact n1
-    · right; exact hc
-  have s1 : 0 ≤ P.const → |P.const| < |r1.2| := by
+  -- each half is at least |const| in magnitude on its side; strictly when a variable can move that way
+  have w1 : 0 ≤ P.const → |P.const| ≤ |r1.2| := by
+    intro hc; rw [abs_of_nonneg hc, abs_of_nonneg (le_trans hc n1)]; exact n1
+  have w2 : P.const ≤ 0 → |P.const| ≤ |r2.2| := by
     intro hc
-    have := cauchy_half_strict P hW D hT hS hd fuel (hup hc)
+    have h0 : 0 ≤ -P.const := by linarith
+    rw [abs_of_nonpos hc, abs_of_nonneg (le_trans h0 n2)]; exact n2
+  have s1 : 0 ≤ P.const → (∃ i, actL P i = true ∨ actU P i = true) → |P.const| < |r1.2| := by
+    intro hc hne
+    have := cauchy_half_strict P hW D hT hS hd fuel hne
     rw [abs_of_nonneg hc, abs_of_nonneg (le_trans hc n1)]; exact this
-  have s2 : P.const ≤ 0 → |P.const| < |r2.2| := by
-    intro hc
-    have := cauchy_half_strict P.neg (neg_wf hW) D hT hS (by rw [hdn]; exact hd) fuel (hdown hc)
+  have s2 : P.const ≤ 0 → (∃ i, actL P.neg i = true ∨ actU P.neg i = true) → |P.const| < |r2.2| := by
+    intro hc hne
+    have := cauchy_half_strict P.neg (neg_wf hW) D hT hS (by rw [hdn]; exact hd) fuel hne
     rw [hcn] at this
     have h0 : 0 ≤ -P.const := by linarith
     rw [abs_of_nonpos hc, abs_of_nonneg (le_trans h0 n2)]; exact this
+  -- one of the two halves is strictly better than |const|
+  have hone : |P.const| < |r1.2| ∨ |P.const| < |r2.2| := by
+    rcases lt_trichotomy P.const 0 with hc | hc | hc
+    · right; exact s2 hc.le (hdown hc)
+    · rcases hzero hc with h | h
+      · left; exact s1 (le_of_eq hc.symm) h
+      · right; exact s2 (le_of_eq hc) h
+    · left; exact s1 hc.le (hup hc)
   split
   · rename_i hge
     rw [← v1]
-    rcases le_or_gt 0 P.const with hc | hc
-    · exact s1 hc
-    · exact lt_of_lt_of_le (s2 (le_of_lt hc)) hge
+    rcases hone with h | h
+    · exact h
+    · exact lt_of_lt_of_le h hge
   · rename_i hlt
     have hlt' := not_le.mp hlt
     have e2 : |P.q r2.1| = |r2.2| := by rw [v2, abs_neg]
     rw [e2]
-    rcases le_or_gt P.const 0 with hc | hc
-    · exact s2 hc
-    · exact lt_trans (s1 (le_of_lt hc)) hlt'
+    rcases hone with h | h
+    · exact lt_trans h hlt'
+    · exact h
 
 end Cobyqa.Cauchy
